@@ -72,6 +72,21 @@ CLAIMED = {
         note="Trusted: TLC; results projected through the library's own vec_znx_idft; small operands (exact FFT64 regime). Shapes "
              "outside the box only sampled.",
         technique="TLA+ index-level model of the VMP layout and loops checked exhaustively with TLC + replay of every shape + TLC trace validation"),
+    "C01": dict(
+        category="exploration",
+        text="The exact product and the budget are the specification's: (1) TLC-simulated programs of the API machine restricted to "
+             "load/dft/svp/small-product/idft are replayed lifted to N up to 16384 under both dispatch configurations (row "
+             "structure, zero rows); (2) products with operands up to the 2^50/2^52 limits at N<=32 (thorough 64) through "
+             "znx_small_single_product and svp_prepare+svp_apply_dft+idft/idft_tmp_a are recorded and TLC recomputes on Wide integers "
+             "the exact negacyclic product, the norms, the domain predicate and E, demanding |d| <= E+1/2 (hence exactness when "
+             "E<1/2); (3) at N up to 4096 (thorough 65536) deviation and norms are measured against the reference model's exact "
+             "int128 product and TLC decides the summary. Operands come from adversarial families scaled to the exactness edge and "
+             "the budget edge. Exploration: inputs are sampled; the bound E itself is measured, not derived.",
+        design_ref="DESIGN.md section 4 C01, section 6",
+        note="Trusted: TLC + Wide.tla, the C reference product at scale (uniform schoolbook loop), ceil-sqrt loosening (<=1e-9 relative). "
+             "The library's real error is 100-1000x below E, so only gross precision loss violates the E clause; the sharp parts are "
+             "exactness below E=1/2, results above 2^50, row structure, both dispatches.",
+        technique="TLA+ API machine simulated by TLC with replay + TLC trace validation of recorded products on bignum arithmetic"),
 }
 
 NOT_YET = "check not built yet in this session (planned, see DESIGN.md section 8)"
